@@ -389,7 +389,7 @@ def run(tier, seed):
     rep = Report(PID, tier, seed, 'translation_validation')
     common.build_mmdump()
     mirs = common.prog_mirs()
-    groups = ['op', 'st', 'ct', 'cl', 'gn', 'ga'] + ([] if quick else ['fx'])
+    groups = ['op', 'st', 'ct', 'cl', 'fi', 'gn', 'ga'] + ([] if quick else ['fx'])
     files = common.corpus_files(groups, tier, seed)
     steps = 3 if quick else 6
     budget = 90 if quick else 400
